@@ -86,58 +86,7 @@ func verifApplyCaught(srv *IRCServer, e *verifgen.Entry) (replies []verifmon.Rep
 	return toReplies(msgs), nil
 }
 
-// verifScope sets e.Role to what the state says (not what the generator
-// believed) and reports whether the entry is outside every property's
-// quantifier: a line from an authenticated services link that is not a
-// protocol-conforming services line (client-grammar text without the prefix
-// anope sends), or a SERVER handshake without a server name.
-func verifScope(before *verifview.View, e *verifgen.Entry) (skip bool) {
-	if e.Session == 0 {
-		return false
-	}
-	a := before.SessionById(verifview.Id{Id: e.Session})
-	if a == nil {
-		e.Role = "nosession"
-		return false
-	}
-	believedLink := e.Gen == "link"
-	probe := e.Gen == "probe"
-	switch {
-	case a.Server:
-		e.Role = "link"
-	case a.Operator:
-		e.Role = "oper"
-	case a.LoggedIn:
-		e.Role = "client"
-	default:
-		e.Role = "unreg"
-	}
-	if e.Type != int64(robust.IRCFromClient) {
-		return false
-	}
-	if a.Server && (!believedLink || probe) {
-		return true
-	}
-	if !a.Server && strings.HasPrefix(a.Pass, "services=") {
-		if cmd, params := verifmon.SplitInput(e.Data); cmd == "SERVER" && (len(params) == 0 || !validServerName(params[0])) {
-			return true
-		}
-	}
-	return false
-}
-
-func validServerName(s string) bool {
-	if s == "" || len(s) > 63 {
-		return false
-	}
-	for i := 0; i < len(s); i++ {
-		c := s[i]
-		if !((c >= 'a' && c <= 'z') || (c >= 'A' && c <= 'Z') || (c >= '0' && c <= '9') || c == '.' || c == '-') {
-			return false
-		}
-	}
-	return true
-}
+func verifScope(before *verifview.View, e *verifgen.Entry) bool { return verifmon.Scope(before, e) }
 
 type histParams struct {
 	Seed   int64
